@@ -45,4 +45,68 @@ def openArchiveI : M Archive := G.openArchive (m := MI)
 /-- `find_content` with std's `Interrupted` convention. -/
 def findContentI (f : FileData) : M Nat := G.findContent (m := MI) f
 
+open M in
+/-- `byIndexRead` (`Model/Reader.lean`) with its two I/O stages as parameters: `fc` - the local-header reads of
+`find_content`; `ta` - the consumer that reads the entry's `Take` to its end.  `byIndexReadWith findContent takeAll` IS
+`byIndexRead` (`byIndexReadWith_model`, by `rfl`). -/
+def byIndexReadWith (fc : FileData → M Nat) (ta : Nat → M Bytes) (ext : Ext) (a : Archive) (i : Nat)
+    (password : Option Bytes) : M (PwResult (Nat × Out Bytes)) :=
+  match a.files[i]? with
+  | none => throw .fileNotFound
+  | some data =>
+    if password.isNone && data.encrypted then throw .passwordRequired else do
+    let password := if data.encrypted then password else none
+    let ds ← fc data
+    match data.method with
+    | .unsupported _ => throw .unsupportedArchive
+    | .aes => throw .unsupportedArchive
+    | m =>
+      match password, data.aesMode with
+      | some pw, some (mode, vv) => do
+        let raw ← ta data.compressedSize.toNat
+        match ext.aes pw mode data.compressedSize raw with
+        | .err e => throw e
+        | .panic s => M.panic s
+        | .ok none => pure .invalidPassword
+        | .ok (some stream) =>
+          let res : Out Bytes := do
+            let pt ← stream
+            let dec ← ext.decode m pt
+            crcCheck (vv == .ae2) data.crc32 dec
+          pure (.ok (ds, res))
+      | some pw, none => do
+        let check : UInt8 := if data.usingDataDescriptor then (data.time.timepart >>> 8).toUInt8
+                             else (data.crc32 >>> 24).toUInt8
+        let raw ← ta data.compressedSize.toNat
+        match ext.zipCrypto pw check raw with
+        | .err e => throw e
+        | .panic s => M.panic s
+        | .ok none => pure .invalidPassword
+        | .ok (some pt) =>
+          let res : Out Bytes := do
+            let dec ← ext.decode m pt
+            crcCheck false data.crc32 dec
+          pure (.ok (ds, res))
+      | none, some _ => pure .invalidPassword
+      | none, none => do
+        let raw ← ta data.compressedSize.toNat
+        let res : Out Bytes := do
+          let dec ← ext.decode m raw
+          crcCheck false data.crc32 dec
+        pure (.ok (ds, res))
+
+theorem byIndexReadWith_model (ext : Ext) (a : Archive) (i : Nat) (pw : Option Bytes) :
+    byIndexReadWith findContent takeAll ext a i pw = byIndexRead ext a i pw := rfl
+
+/-- `by_index` + the entry read to its end by **std's `read_to_end` / `io::copy`**: `find_content` with std's convention,
+and the consumer's reads sit in a retry loop too. -/
+def byIndexReadI (ext : Ext) (a : Archive) (i : Nat) (pw : Option Bytes) : M (PwResult (Nat × Out Bytes)) :=
+  byIndexReadWith findContentI MI.takeAll ext a i pw
+
+/-- `by_index` + the entry read to its end by a **hand-written `read` loop that does not retry** (the fault harness's
+`run_read`: `loop { match f.read(&mut buf) { Ok(0) => break, Ok(c) => …, Err(e) => break } }`): `find_content` with std's
+convention, the consumer's reads bare - an `Interrupted` failure of one of them is the consumer's error. -/
+def byIndexReadB (ext : Ext) (a : Archive) (i : Nat) (pw : Option Bytes) : M (PwResult (Nat × Out Bytes)) :=
+  byIndexReadWith findContentI takeAll ext a i pw
+
 end ZipVerif.Model
